@@ -408,13 +408,28 @@ def run_python_sim(cls, block, cfgs, mems, inits, dflt, steps):
     return r
 
 
+class CompilerUnavailable(PyrtlRejected):
+    """gcc itself failed repeatedly (killed under memory pressure on a loaded machine): infrastructure, not PyRTL"""
+
+
+def make_compiled(block, kw):
+    for attempt in (0, 1, 2):
+        try:
+            with quiet_gcc():
+                return pyrtl.CompiledSimulation(tracer=pyrtl.SimulationTrace(block=block), block=block, **kw)
+        except pyrtl.PyrtlError as e:
+            raise PyrtlRejected(str(e))
+        except (subprocess.CalledProcessError, OSError) as e:
+            if attempt == 2:
+                if _CTX:
+                    _CTX[0].count('compiled_skipped', 'the C compiler failed three times: %s' % type(e).__name__)
+                raise CompilerUnavailable(str(e))
+            import time
+            time.sleep(2 + 3 * attempt)
+
+
 def run_compiled(block, cfgs, mems, inits, steps, probes):
-    try:
-        with quiet_gcc():
-            sim = pyrtl.CompiledSimulation(tracer=pyrtl.SimulationTrace(block=block),
-                                           block=block, **mvm_kw(mems, inits))
-    except pyrtl.PyrtlError as e:
-        raise PyrtlRejected(str(e))
+    sim = make_compiled(block, mvm_kw(mems, inits))
     nets = list(block.logic_subset('@'))
     if _CTX:
         try:
@@ -761,6 +776,11 @@ def judge_verilog_jobs(ctx, jobs):
 
 def queue_verilog(ctx, jobs, block, cfgs, mems, inits, hists, steps, probes, snap, info):
     """text-shape gate on the memory fragment + (when the C05 reader accepts the text) a job for the Coq run"""
+    if len(steps) > 5000:
+        # one literal per cycle: keep the list short enough for Coq's parser at the default stack size
+        hists = [h[:5000] for h in hists]
+        steps = steps[:5000]
+        snap = min(snap, 2500)
     buf = io.StringIO()
     pyrtl.output_to_verilog(buf, block=block)
     text = buf.getvalue()
@@ -1213,6 +1233,27 @@ def _random_chunk(ctx, chk, indices, ncyc_range, compiled_every, post_every, ver
         _SNAP[0] = case['ncyc'] // 2        # inspect_mem is also looked at DURING the run
         ctx.count('memories_without_initial_contents', 'explicit {}' if case['pass_empty'] else 'no memory_value_map entry',
                   sum(1 for i in inits if not i))
+        try:
+            _run_backends(ctx, case, vjobs, compiled_every, post_every, verilog_every)
+        except Exception as e:
+            # a simulator or pass raising on an API-built memory design is a finding with this design as input
+            case['dead'] = True
+            ctx.spec_violation('design:raises-%s' % type(e).__name__,
+                               'a simulator or pass raised %s on an API-built MemBlock design: %s' % (type(e).__name__, str(e)[:200]),
+                               {'seed': ctx.seed, 'tier': ctx.tier, 'design': di, 'memories': [c.desc() for c in cfgs],
+                                'memory_value_maps': inits, 'default_value': dflt, 'histories': case['hists']})
+    _PASS_EMPTY[0] = False
+    _SNAP[0] = None
+    cases = [case for case in cases if not case.get('dead')]
+    judge_verilog_jobs(ctx, vjobs)
+    _compare_chunk(ctx, chk, cases)
+
+
+def _run_backends(ctx, case, vjobs, compiled_every, post_every, verilog_every):
+    """every back-end on one design (results in case['results'])"""
+    cfgs, dflt, steps, inits = case['cfgs'], case['dflt'], case['steps'], case['inits']
+    di = case['di']
+    if True:
         block = build_design(cfgs)
         mems = [c.mem for c in cfgs]
         res = case['results']
@@ -1229,6 +1270,8 @@ def _random_chunk(ctx, chk, indices, ncyc_range, compiled_every, post_every, ver
                     res['compiled/2nd instance'] = run_compiled(block, cfgs, mems, inits, steps, case['probes'])[:2]
                 if any(c.aw > 64 for c in cfgs):
                     ctx.count('compiled_wide_address', 'accepted')
+            except CompilerUnavailable:
+                pass
             except PyrtlRejected as e:
                 ctx.count('compiled_rejected_by_pyrtl', str(e)[:60])
                 # sanctioned only for addresses wider than the 64-bit key of the C hash map: run the rest
@@ -1267,6 +1310,8 @@ def _random_chunk(ctx, chk, indices, ncyc_range, compiled_every, post_every, ver
             def compiled_on(blk, in_block_mems):
                 try:
                     return run_compiled(blk, cfgs, in_block_mems, inits, steps, case['probes'])
+                except CompilerUnavailable:
+                    return None
                 except PyrtlRejected as e:
                     raise RuntimeError('CompiledSimulation rejected the transformed design: %s' % e)
             post = guarded(ctx, 'synthesize', info, lambda: pyrtl.synthesize(update_working_block=False, block=block))
@@ -1300,9 +1345,9 @@ def _random_chunk(ctx, chk, indices, ncyc_range, compiled_every, post_every, ver
                 c.mem = m
         for name in [n for n, r in res.items() if r is None]:
             del res[name]
-    _PASS_EMPTY[0] = False
-    _SNAP[0] = None
-    judge_verilog_jobs(ctx, vjobs)
+
+
+def _compare_chunk(ctx, chk, cases):
     # ---- Coq: the array spec and the three models decide, inside Coq, whether they agree with what
     #      the implementation produced (compact protocol, see Mem/MemHarness.v mem_check)
     exprs = []
@@ -1315,9 +1360,10 @@ def _random_chunk(ctx, chk, indices, ncyc_range, compiled_every, post_every, ver
             p_fast = res['fast'][2][mi]
             has_comp = 'compiled' in res and res['compiled'][0][mi] is not None
             p_comp = res['compiled'][2][mi] if has_comp else ident(c.nw)
-            for p in (p_sim, p_fast, p_comp):
-                if sorted(p) != ident(c.nw):
-                    raise RuntimeError('cannot identify write-port order: %r' % (p,))
+            if any(sorted(p) != ident(c.nw) for p in (p_sim, p_fast, p_comp)):
+                ctx.model_mismatch('cannot identify the order in which a simulator visits the write ports (%r %r %r)'
+                                   % (p_sim, p_fast, p_comp), {'design': case['di'], 'memory': c.desc()})
+                p_sim = p_fast = p_comp = ident(c.nw)
             py_reads, py_final = spec_run(init, dflt, hist)
             case['py'].append((py_reads, py_final))
             comp_probes = [v if isinstance(v, int) else -1 for v in res['compiled'][1][mi]] if has_comp else []
@@ -1501,8 +1547,7 @@ def sweep_part(ctx, chk, configs, dflts):
                     results[name] = (rows, order)
                 if dflt == 0:
                     try:
-                        sim = pyrtl.CompiledSimulation(tracer=pyrtl.SimulationTrace(block=block),
-                                                       block=block, **mvm_kw([mem], [content]))
+                        sim = make_compiled(block, mvm_kw([mem], [content]))
                         order = port_order(list(block.logic_subset('@')), 0)
                         rows = []
                         for t, s in enumerate(steps_all):
@@ -1511,7 +1556,7 @@ def sweep_part(ctx, chk, configs, dflts):
                             insp = sim.inspect_mem(mem)
                             rows.append(([sim.tracer.trace['m0_o%d' % j][-1] for j in range(nr)], [insp[0], insp[1]]))
                         results['compiled'] = (rows, order)
-                    except pyrtl.PyrtlError as e:
+                    except (pyrtl.PyrtlError, PyrtlRejected) as e:
                         ctx.count('compiled_rejected_by_pyrtl', str(e)[:60])
                 p_sim, p_fast = results['sim'][1], results['fast'][1]
                 p_comp = results['compiled'][1] if 'compiled' in results else ident(nw)
@@ -1593,6 +1638,8 @@ def walk_part(ctx, chk, walks):
                         def comp():
                             try:
                                 return run_compiled(post, [cfg], [pm[0][1]], [content], steps, [[0, 1]])
+                            except CompilerUnavailable:
+                                return None
                             except PyrtlRejected as e:
                                 raise RuntimeError('CompiledSimulation rejected the transformed design: %s' % e)
                         res[name + '/compiled'] = guarded(ctx, name + '/compiled', info, comp)
@@ -1956,6 +2003,8 @@ def rom_part(ctx, ndesigns, per_design):
                     for t, s in enumerate(steps):
                         sim.step(dict(s))
                     traces[name] = sim.tracer.trace
+                except CompilerUnavailable:
+                    return
                 except Exception as e:
                     ctx.spec_violation('rom:%s-raises-%s' % (name, type(e).__name__),
                                        '%s raised %s (%s) on ROMs whose every address is defined (pad_with_zeros included)'
@@ -1963,7 +2012,7 @@ def rom_part(ctx, ndesigns, per_design):
                                        {'roms': rom_info, 'cycle': t, 'inputs': steps[t] if t >= 0 else 'construction'})
             mk_sim = lambda b: pyrtl.Simulation(tracer=pyrtl.SimulationTrace(block=b), block=b)
             mk_fast = lambda b: pyrtl.FastSimulation(tracer=pyrtl.SimulationTrace(block=b), block=b)
-            mk_comp = lambda b: pyrtl.CompiledSimulation(tracer=pyrtl.SimulationTrace(block=b), block=b)
+            mk_comp = lambda b: make_compiled(b, {})
             run_rom('sim', mk_sim, block)
             run_rom('fast', mk_fast, block)
             run_rom('compiled', mk_comp, block)
@@ -2052,6 +2101,7 @@ def _timed(ctx, name, f, *a, **kw):
 
 def run(real_ctx):
     _REPORTED.clear()
+    _PORT_OF.clear()
     ctx = _Capped(real_ctx)
     _CTX[:] = [ctx]
     _WORKDIR[:] = [real_ctx.workdir]
